@@ -1,5 +1,19 @@
 """Helpers shared by the property modules."""
+import re
 import vfx
+
+
+_ATIME = re.compile(r"(meta:(?:file|dir):\d+:(?:none|auto|set:-?\d+):(?:none|auto|set:-?\d+)):(?:none|auto|set:-?\d+)")
+
+
+def mask_phys_atime(case, step, optext, line):
+    """On a real disk the access time is the kernel's business (relatime): it is compared only in the
+    metadata() call that directly follows a set_access_time on the same case."""
+    if line is None or not getattr(case, "has_phys", False):
+        return line
+    if optext.startswith("metadata ") and step > 0 and case.ops[step - 1].startswith("setatime "):
+        return line
+    return _ATIME.sub(r"\1:*", line)
 
 
 def run_cases(cases, tag, project, sorted_mode=True, release=False, want_logs=False):
@@ -20,8 +34,8 @@ def run_cases(cases, tag, project, sorted_mode=True, release=False, want_logs=Fa
         if c is None or cname in seen_case:
             continue
         optext = c.ops[step] if step < len(c.ops) else "?"
-        m = mlines.get(k)
-        i = ilines.get(k)
+        m = mask_phys_atime(c, step, optext, mlines.get(k))
+        i = mask_phys_atime(c, step, optext, ilines.get(k))
         pm = project(kind, c, step, optext, m) if m is not None else None
         pi = project(kind, c, step, optext, i) if i is not None else None
         if pm != pi:
